@@ -40,6 +40,9 @@ func c14ConcScenarios(thorough bool) []vScn {
 		if strings.HasSuffix(scn.name, "-cached") { // the strict and cold regimes exercise the same reply paths
 			continue
 		}
+		if !thorough && strings.HasSuffix(scn.name, "-cold") {
+			continue
+		}
 		out = append(out, wrap(scn))
 	}
 	return out
@@ -49,7 +52,7 @@ func init() {
 	vRegister(&vCheck{
 		id: "C14.conc", level: "model_checking", flavour: "sched",
 		shards: func(string) int { return 16 },
-		rule: "stateless model checking (controlled scheduler, source-instrumented server): the request-vs-policy-update scenarios of C16 (replies produced while an update drains and swaps, incl. early request timeouts) and the three-client request histories of C29 (minimal-TTL and cold-cache regimes); every choice sequence within D-bound 2 (thorough D-bound 3, P-bound 2); every reply of every execution must parse as an RFC 1831 reply echoing its xid and decode exactly as the RFC 1813 result of its procedure and status.",
+		rule: "stateless model checking (controlled scheduler, source-instrumented server): the request-vs-policy-update scenarios of C16 (replies produced while an update drains and swaps, incl. early request timeouts) and the three-client request histories of C29 (minimal-TTL regime; thorough adds the cold-cache regime); every choice sequence within D-bound 2 (thorough D-bound 3, P-bound 2); every reply of every execution must parse as an RFC 1831 reply echoing its xid and decode exactly as the RFC 1813 result of its procedure and status.",
 		assumptions: []string{"scheduling points are the synchronisation operations of the instrumented package plus every backend call"},
 		run:         func(c *vCtx) { vSchedRun(c, "C14", c14ConcScenarios(c.thorough())) },
 		replay:      func(c *vCtx, raw json.RawMessage) { vSchedReplay(c, "C14", c14ConcScenarios(true), raw) },
